@@ -27,8 +27,6 @@ ASSUMPTIONS = ["the user function is a pure function, continuous on the bracket"
                "theorems are about exact real arithmetic (rnd = id); the driver rounds the new iterate to 2^-200"]
 TRUSTED = ["mpmath evaluation of atan/erf/tanh/pow/exp/log/cos as the sign reference for the transcendental families"]
 
-ITERLIMIT_CLAUSE = ("Find_Root: iteration limit reached before the bracket is shorter than the requested accuracy "
-                    "(bracket width / accuracy > 2^50)")
 MARGIN = Fraction(1, 2 ** 26)
 KNOISE = 64
 U = Fraction(1, 2 ** 53)
@@ -76,7 +74,7 @@ def habs(cs, x):
     return horner([abs(Fraction(c)) for c in cs], abs(x))
 
 
-TRANSC = ("atan", "erf", "tanh", "rpow", "expm", "logx", "cosx", "gauss")
+TRANSC = ("atan", "erf", "tanh", "rpow", "expm", "logx", "cosx", "gauss", "dexp")
 
 
 def feval(d, x):
@@ -122,6 +120,10 @@ def feval(d, x):
         v = w * mp.log(X / s); der = abs(w) / X; arg = abs(X)
     elif k == "gauss":
         a = X - s; v = mp.exp(-w * a * a); der = 2 * abs(w * a) * v; arg = (abs(X) + abs(s)) * 2 + abs(a)
+    elif k == "dexp":
+        t = (X - s) if w > 0 else (s - X)
+        e1 = mp.exp(-t); e2 = c * mp.exp(-abs(w) * t)
+        return e1 - e2, (abs(e1) + abs(e2)) * 4 + (e1 + abs(w) * abs(e2)) * (abs(X) + abs(s)) * 4
     elif k == "cosx":
         a = w * (X - s); v = mp.cos(a); der = abs(w) * abs(mp.sin(a)) + abs(w) * abs(a) * mp.mpf(2) ** -50; arg = abs(X) + abs(s)
     else:
@@ -286,6 +288,34 @@ def generate(tier, seed, ctx):
         acc = rng.choice([1e-14 * r0, r0 * 10.0 ** rng.uniform(-14, 0), (b - a) / 2.0 ** rng.uniform(40, 50), (b - a) / 2.0 ** rng.uniform(50, 70)])
         if sign_change(d, a, b):
             add(d, a, b, acc, "wide/%s" % ("beyond-2^50" if (b - a) / acc > 2.0 ** 50 else "within-2^50"), oracle_only=True)
+    # 4c. fixed request: x^2-1 on [0.1, 1e14], acc 1e-14 (missed with the former limit of 50 iterations) -----------
+    add(dict(kind="powc", ip=2, c=1.0), 0.1, 1e14, 1e-14, "wide/fixed", oracle_only=True)
+    # 4d. steep zero crossing next to a bracket end followed by a slow decay (non-monotone): Ridder's point can fail
+    #     to cross the root and have the larger residual in the terminating iteration ------------------------------
+    for _ in range(60 * N):
+        k = 10.0 ** rng.uniform(2, 4); c = 1 + 10.0 ** -rng.uniform(2, 5)
+        B = rng.choice([2.0, 10.0, 10.0, 50.0, rng.uniform(1, 100)])
+        acc = rng.choice([1e-3, 1e-3, 1e-2, B * 10.0 ** rng.uniform(-5, -1)])
+        mirror = rng.random() < 0.5
+        if rng.random() < 0.5:
+            # 1/(1+x) - c/(1+kx) = ((1-c) + (k-c)x) / ((1+x)(1+kx)); only root at (c-1)/(k-c)
+            pp = [1 - c, k - c]; qq = [1.0, 1 + k, k]
+            if mirror:
+                pp = [pp[0], -pp[1]]; qq = [qq[0], -qq[1], qq[2]]
+            d = dict(kind="rat", p=pp, q=qq)
+            a, b = (0.0, B) if not mirror else (-B, 0.0)
+            fam = "steep/rat"
+        else:
+            s0 = rng.choice([0.0, rng.uniform(-2, 2)])
+            d = dict(kind="dexp", w=(-k if mirror else k), s=s0, c=c)
+            a, b = (s0, s0 + B) if not mirror else (s0 - B, s0)
+            fam = "steep/dexp"
+        try:
+            ok = sign_change(d, a, b)
+        except Exception:
+            ok = False
+        if ok:
+            add(d, a, b, acc, fam)
     # 5. saturating piece-wise rational ---------------------------------------------------------------------
     for _ in range(80 * N):
         s = rng.uniform(-3, 3); c = rng.uniform(-0.999, 0.999)
@@ -450,12 +480,11 @@ def oracle(q, I, ctx):
         return out
     W = Fraction(hi) - Fraction(lo)
     delta = Fraction(acc)
-    # width/acc <= 2^50: findRoot_maxiter_bound + ridder_invariant exclude the iteration-limit exit (the bracket at
-    # least halves per iteration), the ordinary accuracy clause applies.  width/acc > 2^50: no method whose only
-    # guarantee is halving can promise the accuracy in 50 iterations; a miss there is reported under its own clause.
-    beyond = delta > 0 and W / delta > 2 ** 50
+    # width/acc <= 2^200 (the whole quantifier): ridder_invariant + findRoot_maxiter_bound exclude the
+    # iteration-limit exit with a bracket wider than acc, the ordinary accuracy clause applies.
     if I["maxit"]:
         bump(ctx, "maxiter exits")
+        delta = max(delta, W / 2 ** 199)
     u = max(Fraction(lo), Fraction(r) - delta)
     v = min(Fraction(hi), Fraction(r) + delta)
     pts = [feval(d, u), feval(d, Fraction(r)), feval(d, v)]
@@ -473,11 +502,6 @@ def oracle(q, I, ctx):
     noise = min((abs(p[0]) / p[1]) if p[1] else 0 for p in pts)
     if noise <= KNOISE * (float(U) if not isinstance(noise, Fraction) else U):
         bump(ctx, "noise-excused (|f| below its rounding error near the returned point)")
-        return out
-    if I["maxit"] and beyond:
-        out.append(fail("prop", ITERLIMIT_CLAUSE,
-                        "r=%r acc=%r width/acc=2^%.1f f(r-acc)=%.3e f(r)=%.3e f(r+acc)=%.3e" % (
-                            r, acc, math.log2(float(W / delta)), float(pts[0][0]), float(pts[1][0]), float(pts[2][0]))))
         return out
     out.append(fail("prop", "no sign change of the function within the requested accuracy of the returned point",
                     "r=%r acc=%r f(r-acc)=%.3e f(r)=%.3e f(r+acc)=%.3e maxit=%d" % (r, acc, float(pts[0][0]), float(pts[1][0]), float(pts[2][0]), I["maxit"])))
